@@ -7,6 +7,7 @@ import Tw.Proofs.ConnWire6
 import Tw.Proofs.ConnWire7
 import Tw.Proofs.ConnTok7
 import Tw.Proofs.RsConn
+import Tw.Proofs.RsConn7
 
 /-!
 # C04 — everything the connection layer sends is well-formed; bad sends are refused
@@ -332,5 +333,17 @@ theorem tie_rs_can_fit_chunk (p : Tw.Gen.RsConn.PacketContents) (data : List UIn
 
 example : (PacketContents.empty).numChunks = (⟨0, []⟩ : Tw.Gen.RsConn.PacketContents).num_chunks ∧
     (PacketContents.empty).size = (⟨0, []⟩ : Tw.Gen.RsConn.PacketContents).data.length := by decide
+
+/-! The same for the 0.7 twins of `net/src/connection7.rs` / `protocol7.rs` (`Tw.Gen.RsConn7.*`). -/
+
+theorem tie_rs7_chunk_header_size (vital : Bool) :
+    Tw.Gen.RsConn7.chunk_header_size vital = .ok (chunkHeaderSize vital) :=
+  Tw.RsConn7.chunk_header_size_eq vital
+
+theorem tie_rs7_can_fit_chunk (p : Tw.Gen.RsConn7.PacketContents) (data : List UInt8) (vital : Bool)
+    (q : PacketContents) (hn : q.numChunks = p.num_chunks) (hs : q.size = p.data.length)
+    (hlen : p.data.length + 3 + data.length < 2 ^ 64) (hu8 : p.num_chunks < 256) :
+    Tw.Gen.RsConn7.PacketContents.can_fit_chunk p data vital = .ok (q.canFit data.length vital) :=
+  Tw.RsConn7.can_fit_chunk_eq p data vital q hn hs hlen hu8
 
 end Tw.Props.C04
